@@ -538,6 +538,10 @@ def oracle(case):
         if key.startswith("_"): continue
         got = obs.get(key)
         if got is None: continue
+        if isinstance(got, str) and "FloatingPointError" in got and isinstance(exp, list) and any(isinstance(x, float) and x != x for x in exp):
+            # degenerate for THIS weighting: the weighted normals cancel at some vertex (the textbook value is waived there as NaN)
+            # and the implementation refuses to normalise a null vector; the statement quantifies over non-degenerate meshes
+            continue
         bad = U.first_bad(got, exp, _scale_for(key, size, amag))
         if bad:
             fkey, what = f"C07/def/{key}/{fam}", f"{key} differs from its textbook definition ({fam} mesh)"
@@ -806,6 +810,8 @@ def compare(case, model, impl):
     for key, e in exp.items():
         got = impl.get(key)
         if got is None: return f"implementation observation lacks {key}"
+        if isinstance(got, str) and "FloatingPointError" in got and isinstance(e, list) and any(isinstance(x, float) and x != x for x in e):
+            continue    # degenerate for this weighting (weighted normals cancel at a vertex: NaN in the model, refusal in the code)
         bad = U.first_bad(got, e, _scale_for(key, size, amag))
         if bad:
             return f"{key}[{bad[0]}]: implementation {bad[1]} vs model {bad[2]}"
